@@ -238,20 +238,20 @@ theorem execute_storeInv {x : Option Nat} (s : St) (j : Nat) (due : Int) (hI : I
   unfold execute
   simp only []
   generalize hs0 : (if (s.job j).execFail.contains (s.job j).execs = true then
-      (((s.emit (Ev.exec j s.now due)).setJob j { s.job j with execs := (s.job j).execs + 1 })).emit (Ev.exc "CallableError")
-    else ((s.emit (Ev.exec j s.now due)).setJob j { s.job j with execs := (s.job j).execs + 1 })) = s0
-  have hb : JobOK ({ s.job j with execs := (s.job j).execs + 1 } : Job) := hI.st j
-  have hA : Inv ((s.emit (Ev.exec j s.now due)).setJob j { s.job j with execs := (s.job j).execs + 1 }) :=
+      (((s.emit (Ev.exec j s.now due)).setJob j { s.job j with execs := (s.job j).execs + 1, lastRun := some s.now })).emit (Ev.exc "CallableError")
+    else ((s.emit (Ev.exec j s.now due)).setJob j { s.job j with execs := (s.job j).execs + 1, lastRun := some s.now })) = s0
+  have hb : JobOK ({ s.job j with execs := (s.job j).execs + 1, lastRun := some s.now } : Job) := hI.st j
+  have hA : Inv ((s.emit (Ev.exec j s.now due)).setJob j { s.job j with execs := (s.job j).execs + 1, lastRun := some s.now }) :=
     (InvEx_setJob _ ((Inv_emit _ hI (by simpa [evOK] using hdue)).toEx j) hb).toInv hj
   have hfr : ∀ s' : St, s'.store = s.store →
-      s'.jobs = (fun i => if i = j then { s.job j with execs := (s.job j).execs + 1 } else s.jobs i) →
+      s'.jobs = (fun i => if i = j then { s.job j with execs := (s.job j).execs + 1, lastRun := some s.now } else s.jobs i) →
       StoreInvX x s' ∧ NoCreate s s' := by
     intro s' hst hjobs
     refine StoreInvX_frame h hst ?_
     intro i
     by_cases e : i = j
     · subst e
-      have : s'.job i = { s.job i with execs := (s.job i).execs + 1 } := by
+      have : s'.job i = { s.job i with execs := (s.job i).execs + 1, lastRun := some s.now } := by
         show s'.jobs i = _
         rw [hjobs]; simp
       rw [this]; exact ⟨rfl, rfl, id, id⟩
